@@ -295,9 +295,10 @@ class OrderedMultiDict(dict):
             seen = set()
             seen_add = seen.add
             for k, v in E:
-                if k not in seen and k in self:
-                    del self[k]
+                if k not in seen:
                     seen_add(k)
+                    if k in self:
+                        del self[k]
                 self_add(k, v)
         for k in F:
             self[k] = F[k]
